@@ -24,6 +24,11 @@ def gen_width_tasks(tier, seed):
             base = {"wkind": "width", "name": name, "edges": arb, "cyc": cyc, "starts": [], "ends": [], "ignored": [], "constraints": [], "node_mode": False}
             tasks.append({**base, "wt": "int"})
             tasks.append({**base, "wt": "float"})
+            if cyc and name in F.CURATED_DIGRAPHS and len(es) <= (7 if tier == "quick" else 9):
+                # k=None with every single edge ignored in turn
+                for ex in es:
+                    if any(f for (u, v, f) in arb if (u, v) != ex):
+                        tasks.append({**base, "wt": "int", "ignored": [list(ex)]})
             if len(es) > 1:
                 e0 = rng.choice(es)
                 if any(f for (u, v, f) in arb if (u, v) != e0):
